@@ -455,6 +455,24 @@ func refCall(name string, a []val) (val, bool) {
 				return num(decimal.New(int64(y), 0))
 			}
 		}
+	case "DAYS", "DATEDIF":
+		// DAYS(end, start) and DATEDIF(start, end, "D"): whole days between two dates (other DATEDIF units and a start after
+		// the end are declined: the legacy semantics there are not the new function's)
+		if (name == "DAYS" && len(a) == 2 || name == "DATEDIF" && len(a) == 3 && a[2].kind == "str" && a[2].s == "D") && a[0].kind == "date" && a[1].kind == "date" {
+			parse := func(s string) time.Time {
+				var y, m, d int
+				fmt.Sscanf(s, "%d-%d-%d", &y, &m, &d)
+				return time.Date(y, time.Month(m), d, 0, 0, 0, 0, time.UTC)
+			}
+			days := int64(parse(a[0].s).Sub(parse(a[1].s)) / (24 * time.Hour))
+			if name == "DATEDIF" {
+				days = -days
+				if days < 0 {
+					return bad, false
+				}
+			}
+			return num(decimal.New(days, 0))
+		}
 	case "DATE":
 		if len(a) == 3 {
 			y, ok1 := smallInt(a[0], 1900, 2100)
@@ -801,6 +819,13 @@ func drawNum(t *rapid.T, depth int) L {
 		return L{K: "call", S: rapid.SampledFrom([]string{"LEN", "WORD_COUNT"}).Draw(t, "fn"), A: []L{drawStr(t, depth-1)}}
 	case 12:
 		date := L{K: "call", S: "DATE", A: []L{{K: "num", S: fmt.Sprint(rapid.IntRange(1990, 2030).Draw(t, "y"))}, {K: "num", S: fmt.Sprint(rapid.IntRange(1, 12).Draw(t, "m"))}, {K: "num", S: fmt.Sprint(rapid.IntRange(1, 28).Draw(t, "d"))}}}
+		if rapid.IntRange(0, 2).Draw(t, "datediff") == 0 {
+			date2 := L{K: "call", S: "DATE", A: []L{{K: "num", S: fmt.Sprint(rapid.IntRange(1990, 2030).Draw(t, "y2"))}, {K: "num", S: fmt.Sprint(rapid.IntRange(1, 12).Draw(t, "m2"))}, {K: "num", S: fmt.Sprint(rapid.IntRange(1, 28).Draw(t, "d2"))}}}
+			if rapid.Bool().Draw(t, "days") {
+				return L{K: "call", S: "DAYS", A: []L{date, date2}}
+			}
+			return L{K: "call", S: "DATEDIF", A: []L{date, date2, {K: "str", S: "D"}}}
+		}
 		return L{K: "call", S: rapid.SampledFrom([]string{"WEEKDAY", "DAY", "MONTH", "YEAR", "WEEKDAY"}).Draw(t, "fn"), A: []L{date}}
 	default:
 		return L{K: "call", S: "IF", A: []L{drawBool(t, depth-1), drawNum(t, depth-1), drawNum(t, depth-1)}}
